@@ -177,7 +177,12 @@ func (s *Store) Delete(ctx context.Context, target ocispec.Descriptor) error {
 			if err != nil {
 				return err
 			}
-			deleteQueue = append(deleteQueue, referrers...)
+			for _, r := range referrers {
+				// do not delete existing tagged manifests
+				if !s.isTagged(r) {
+					deleteQueue = append(deleteQueue, r)
+				}
+			}
 		}
 
 		// delete the head of queue
